@@ -28,6 +28,7 @@ class Suite:
         self.name = facts.get('suite')
         self.bodies = {b['id']: b for b in facts['bodies']}
         self.leaves = {l['id']: l for l in facts['leaves']}
+        self.types = facts.get('types', {})
         self.by_generic = {}
         for b in facts['bodies']:
             self.by_generic.setdefault(b['generic_path'], []).append(b)
@@ -45,6 +46,19 @@ class Suite:
         out = [b for gp, bs in self.by_generic.items() if gp.endswith(suffix) for b in bs
                if crate is None or b['crate'] == crate]
         return out
+
+    def leaf_paths(self, ty, prefix=()):
+        """field paths down to the first type that is not an opaque_ke struct (e.g. byte arrays, voprf elements, curve points)"""
+        t = self.types.get(ty)
+        if not t or t['crate'] != 'opaque_ke' or t['kind'] != 'struct':
+            return [(prefix, ty)]
+        out = []
+        for f in t['variants'][0]['fields']:
+            out.extend(self.leaf_paths(f['ty'], prefix + (f['name'],)))
+        return out
+
+    def param_type(self, body, idx):
+        return body['locals'][idx]['ty']
 
     def i2osp_ids(self):
         """the crate's integer-to-octet-string helper, recognised by shape (DESIGN 3.2-4):
